@@ -113,7 +113,7 @@ func main() {
 		if len(b64n(48)) != 64 {
 			panic("full line not 64 columns")
 		}
-		intros := []string{"age-encryption.org/v1\n", "age-encryption.org/v1\r\n", "age-encryption.org/v2\n", ""}
+		intros := []string{"age-encryption.org/v1\n", "age-encryption.org/v1\r\n", "age-encryption.org/v2\n", "", "age-encryption.org/v01\n", "age-encryption.org/v+1\n", "age-encryption.org/v1 \n", "age-encryption.org/v 1\n", "age-encryption.org/v1\t\n", "Age-encryption.org/v1\n", " age-encryption.org/v1\n"}
 		terms := []string{"\n", "", "\r\n"}
 		rems := []string{"", "x", "0123456789abcdefg", "-> t\n", "--- " + mac + "\n"}
 
